@@ -21,6 +21,9 @@ func propC17(a *Analysis, r *Registry) {
 	X := b.X
 	S := X.S
 	const rB = "B-C17 formula"
+	for _, n := range []string{"scale.(Linear).TicksAtLevel", "scale.(*Log).TicksAtLevel", "scale.(logTicker).TicksAtLevel"} {
+		X.NoInline[n] = true // kept as applications: Ticks' obligations are stated on the level argument
+	}
 	linLets := [][2]string{
 		{"eb", "ite(s.Base==0, 10, s.Base)"},
 		{"sp0", "pow(eb, floor(level/2))"},
